@@ -317,10 +317,11 @@ class Script:
     def _bound(self, a, args, kwargs):
         """Entry bindings of the NAMED parameters, from the signature - not from the frame."""
         f = a["sigfunc"]()
-        ba = inspect.signature(f).bind(*(a["selfargs"]() + list(args)), **kwargs)
+        sig = inspect.signature(f, follow_wrapped=False)      # the function whose code runs, whatever its __wrapped__ says
+        ba = sig.bind(*(a["selfargs"]() + list(args)), **kwargs)
         ba.apply_defaults()
         out = []
-        for name, p in inspect.signature(f).parameters.items():
+        for name, p in sig.parameters.items():
             if p.kind in (p.VAR_POSITIONAL, p.VAR_KEYWORD):
                 continue
             out.append({"n": name, "v": self.absval(ba.arguments[name])})
